@@ -286,6 +286,71 @@ def canon_gfields(o):
     return o
 
 
+# ------------------------------------------------------------------ use / default / fixed (Gen/Attrs.lean)
+def gen_attr_decls(rng, tier):
+    uses = [None, "optional", "required", "prohibited"]
+    # bounded-exhaustive first: every use x default/fixed x type; every occurrence range x default/fixed x type
+    exhaustive = []
+    for tp in ("string", None):
+        for dflt, fx in ((None, None), ("dv", None), (None, "fv"), ("dv", "fv"), ("", None)):
+            for u in uses:
+                exhaustive.append({"kind": "attribute", "use": u, "default": dflt, "fixed": fx, "type": tp})
+            for mn, mx in ((1, 1), (0, 1), (0, MAXSIZE), (1, MAXSIZE), (2, 2), (0, 0), (2, 3)):
+                exhaustive.append({"kind": "element", "min": mn, "max": mx, "default": dflt, "fixed": fx, "type": tp})
+    for i in range(0, len(exhaustive), 12):
+        yield {"decls": exhaustive[i:i + 12]}
+    for _ in range(n_cases(tier, 150, 6000)):
+        yield {"decls": [G.gen_decl(rng) for _ in range(rng.randint(1, 8))]}
+
+
+def impl_attr_map(a):
+    try:
+        return ok(G.real_attr_map(a["decls"]))
+    except Exception as e:  # noqa: BLE001
+        return err("HARNESS:" + type(e).__name__)
+
+
+def gen_attr_sanitize(rng, tier):
+    vals = [None, "dv", ""]
+    out = []
+    for ia in (True, False):
+        for mn, mx in ((0, 1), (1, 1), (0, MAXSIZE), (1, MAXSIZE), (2, 2), (0, 0)):
+            for d in vals:
+                for fx in (False, True):
+                    for ao in (False, True):
+                        for xt in (False, True):
+                            if xt and not ia:
+                                continue
+                            out.append({"is_attribute": ia, "min": mn, "max": mx, "default": d, "fixed": fx and d is not None, "any_obj": ao, "xsi_type": xt})
+    for i in range(0, len(out), 16):
+        yield {"attrs": out[i:i + 16]}
+    for _ in range(n_cases(tier, 50, 3000)):
+        yield {"attrs": [rng.choice(out) for _ in range(8)]}
+
+
+def impl_attr_sanitize(a):
+    try:
+        return ok(G.real_attr_sanitize(a["attrs"]))
+    except Exception as e:  # noqa: BLE001
+        return err("LEAK:" + type(e).__name__)
+
+
+def gen_attr_fields(rng, tier):
+    for a in gen_attr_decls(rng, "quick" if tier == "quick" else tier):
+        yield a
+
+
+def impl_attr_fields(a):
+    g = CG.run_pipeline({"s.xsd": G.decls_xsd(a["decls"])})
+    try:
+        if g.error is not None:
+            return err("GEN:" + type(g.error).__name__)
+        fs = {f.metadata.get("name", f.name): f for f in dataclasses.fields(g.classes()["R"])}
+        return ok([G.dataclass_field_shape(fs[f"d{i}"]) if f"d{i}" in fs else None for i in range(len(a["decls"]))])
+    finally:
+        g.close()
+
+
 CORRS = [
     Corr("gen.xsd_sites", gen_sites, impl_sites, canon=canon_sites, describe="SchemaParser+SchemaMapper element sites and paths vs model"),
     Corr("gen.calc_paths", stage_gen("calc"), stage_impl("calc"), describe="CalculateAttributePaths.process vs model"),
@@ -303,6 +368,12 @@ CORRS = [
          describe="named groups / xs:all: real container through the FLATTEN step vs model (UNGROUP + the three handlers)"),
     Corr("gen.grp_fields", gen_gfields, impl_gfields, canon=canon_gfields,
          describe="named groups / xs:all: whole real pipeline + stand-in renderer: list-ness / requiredness of the fields of every class vs model"),
+    Corr("gen.attr_map", gen_attr_decls, impl_attr_map,
+         describe="use/default/fixed: SchemaParser + SchemaMapper.build_class_attribute (+ CalculateAttributePaths) on xs:attribute / xs:element declarations vs model"),
+    Corr("gen.attr_sanitize", gen_attr_sanitize, impl_attr_sanitize,
+         describe="SanitizeAttributesDefaultValue.process_attribute on constructed attrs vs model"),
+    Corr("gen.attr_fields", gen_attr_fields, impl_attr_fields,
+         describe="use/default/fixed: whole real pipeline + stand-in renderer: presence, init and default of the dataclass field of every declaration vs model"),
     Corr("c02.e2e", gen_e2e, impl_e2e, spec=spec_e2e,
          describe="spec-level: schema (typed elements, unions) -> real pipeline under default / compound-field / output-only options -> strict parse of valid documents -> re-serialise; expected: faithful"),
 ]
@@ -577,6 +648,104 @@ def covered_gschema(a, msg):
     return None
 
 
+def oracle_attr_docs(a):
+    """use/default/fixed: whatever a schema-valid element carries for an attribute declaration is accepted by
+    the strict parser and read as the schema-normalized value (the value given, else default/fixed, else nothing);
+    elements with default/fixed and every occurrence range keep their children through the round trip"""
+    from lxml import etree
+    from xsdata.formats.dataclass.context import XmlContext
+    from xsdata.formats.dataclass.parsers import XmlParser
+    from xsdata.formats.dataclass.parsers.config import ParserConfig
+    from xsdata.formats.dataclass.serializers import XmlSerializer
+
+    decls = a["decls"]
+    xsd = G.decls_xsd(decls)
+    try:
+        schema = etree.XMLSchema(etree.fromstring(xsd.encode()))
+    except etree.XMLSchemaParseError:
+        return None
+    g = CG.run_pipeline({"s.xsd": xsd}, **a.get("config", {}))
+    try:
+        if g.error is not None:
+            return f"generation failed: {type(g.error).__name__}: {g.error}"
+        R = g.classes()["R"]
+        ctx = XmlContext()
+        parser = XmlParser(context=ctx, config=ParserConfig(fail_on_unknown_properties=True, fail_on_unknown_attributes=True, fail_on_converter_warnings=True))
+        fields = {f.metadata.get("name", f.name): f.name for f in dataclasses.fields(R)}
+        for doc_spec in a["docs"]:
+            attrs = "".join(f' d{i}="{G._xml_attr(v)}"' for i, v in doc_spec["attrs"])
+            kids = "".join(f"<t:d{i}>{v}</t:d{i}>" for i, vals in doc_spec["elems"] for v in vals)
+            doc = f'<t:r xmlns:t="urn:t"{attrs}>{kids}</t:r>'
+            if not schema.validate(etree.fromstring(doc.encode())):
+                continue
+            try:
+                obj = parser.from_string(doc, R)
+            except Exception as e:  # noqa: BLE001
+                return f"schema-valid document {doc} rejected: {type(e).__name__}: {e}"
+            given = dict(doc_spec["attrs"])
+            for i, d in enumerate(decls):
+                if d["kind"] != "attribute" or d["use"] == "prohibited":
+                    continue
+                want = given.get(i)
+                if want is None:
+                    want = d["default"] if d["default"] is not None else d["fixed"]
+                got = getattr(obj, fields[f"d{i}"]) if f"d{i}" in fields else None
+                if got != want:
+                    return f"document {doc}: attribute d{i} ({d}) read as {got!r}, schema-normalized value {want!r}"
+            out = XmlSerializer(context=ctx).render(obj)
+            back = etree.fromstring(out.encode())
+            exp_kids = [(f"d{i}", v) for i, vals in doc_spec["elems"] for v in vals]
+            got_kids = [(etree.QName(c).localname, c.text or "") for c in back]
+            if got_kids != exp_kids:
+                return f"document {doc} re-serialised with other children: {out}"
+
+            def norm(attrib):
+                m = {k: v for k, v in attrib.items()}
+                for i, d in enumerate(decls):
+                    if d["kind"] == "attribute" and d["use"] != "prohibited" and f"d{i}" not in m:
+                        dv = d["default"] if d["default"] is not None else d["fixed"]
+                        if dv is not None:
+                            m[f"d{i}"] = dv
+                return m
+
+            if norm(back.attrib) != norm({f"d{i}": v for i, v in doc_spec["attrs"]}):
+                return f"document {doc} re-serialised with other attributes (after defaults): {out}"
+            if not schema.validate(back):
+                return f"document {doc} re-serialised as {out}, which is not schema-valid"
+    finally:
+        g.close()
+    return None
+
+
+def gen_attr_docs(rng, tier):
+    n = 0
+    while n < n_cases(tier, 60, 100000):
+        n += 1
+        decls = []
+        for _ in range(rng.randint(1, 7)):
+            d = G.gen_decl(rng)
+            if G.decl_valid(d) and not (d["kind"] == "element" and d["type"] is None):
+                decls.append(d)
+        if not decls:
+            continue
+        docs = []
+        for _ in range(4):
+            attrs, elems = [], []
+            for i, d in enumerate(decls):
+                if d["kind"] == "attribute":
+                    if d["use"] == "prohibited":
+                        continue
+                    if d["use"] == "required" or rng.random() < 0.5:
+                        attrs.append([i, d["fixed"] if d["fixed"] is not None else rng.choice(["v1", "dv", "other value"])])
+                else:
+                    hi = d["min"] + 2 if d["max"] == MAXSIZE else d["max"]
+                    k = rng.randint(d["min"], max(d["min"], hi))
+                    val = d["fixed"] if d["fixed"] is not None else None
+                    elems.append([i, [val if val is not None else f"e{j}" for j in range(k)]])
+            docs.append({"attrs": attrs, "elems": elems})
+        yield {"decls": decls, "docs": docs, "config": {"compound_fields": True} if rng.random() < 0.2 else {}}
+
+
 def covered_groups(a, msg):
     return None  # element names are distinct inside the group: the duplicate-site finding cannot apply
 
@@ -604,6 +773,7 @@ ORACLES = [
     Oracle("c02.valid_docs", gen_docs, oracle_docs, covered=covered_docs, from_ops=("gen.xsd_sites", "gen.xsd_occurs"), adapt=adapt_docs),
     Oracle("c02.group_refs", gen_groups, oracle_groups, covered=covered_groups),
     Oracle("c02.gschema_docs", gen_gschema_docs, oracle_gschema, covered=covered_gschema),
+    Oracle("c02.attr_docs", gen_attr_docs, oracle_attr_docs),
 ]
 
 
